@@ -159,19 +159,18 @@ Hypothesis W : wf_fs fs.
 Hypothesis A : isabs cwd = true.
 Let root := resolve (cwdloc cwd) rootdir.
 
-Lemma do_entry_spec d f a incs :
-  extract_incs (tl a) = Ok incs ->
+Lemma do_entry_spec d f a :
   exists o w, do_entry fs cwd rootdir d f a = Ok (o, w) /\
-    map denote_entry o = opens [s_entry fs root d f a incs] /\
-    map denote_warn w = swarns [s_entry fs root d f a incs].
+    map denote_entry o = opens [s_entry fs root d f a (extract_incs (tl a))] /\
+    map denote_warn w = swarns [s_entry fs root d f a (extract_incs (tl a))].
 Proof.
-  intro X. unfold do_entry, s_entry, is_supported.
+  unfold do_entry, s_entry, is_supported.
   destruct a as [|a0 ar]; [exists [], [WUnsupported]; repeat split|].
   destruct (is_source_file f); cbn [negb]; [|exists [], [WUnsupported]; repeat split].
   destruct (file_path_spec cwd rootdir d f A) as (k & Hk & E & P). fold root in E, P.
   rewrite E. rewrite exists_render; [|exact W|lia|exact P].
   destruct (kind_of fs (s_file root d f)) as [kd|] eqn:K; cbn [negb].
-  - rewrite X. eexists; eexists; split; [reflexivity|]. split; [|reflexivity].
+  - eexists; eexists; split; [reflexivity|]. split; [|reflexivity].
     cbn [map opens]. unfold denote_entry. cbn [o_file o_incs].
     rewrite resolve_render; [|lia|exact P].
     rewrite map_map. unfold root. rewrite inc_paths_denote by exact A. reflexivity.
@@ -196,17 +195,9 @@ Proof.
     destruct (e_argv e) as [a|] eqn:Ea; [|discriminate].
     destruct (s_db fs root es) as [t|] eqn:Et; [|discriminate].
     destruct (IH t eq_refl) as (v & l & o & w & Hv & Hl & Hloop & Ho & Hw).
-    assert (Hent : exists o1 w1 so, outs = so :: t /\
-              do_entry fs cwd rootdir (e_dir e) f a = Ok (o1, w1) /\
-              map denote_entry o1 = opens [so] /\ map denote_warn w1 = swarns [so]).
-    { destruct (extract_incs (tl a)) as [incs|err] eqn:X.
-      - inversion H; subst.
-        destruct (do_entry_spec (e_dir e) f a incs X) as (o1 & w1 & D & O1 & W1).
-        exists o1, w1, (s_entry fs root (e_dir e) f a incs). repeat split; assumption.
-      - destruct (is_supported f a) eqn:S; [discriminate|]. inversion H; subst.
-        exists [], [WUnsupported], SSkipUnsupported. repeat split.
-        unfold do_entry. rewrite S. reflexivity. }
-    destruct Hent as (o1 & w1 & so & -> & D & O1 & W1).
+    inversion H; subst. clear H.
+    destruct (do_entry_spec (e_dir e) f a) as (o1 & w1 & D & O1 & W1).
+    set (so := s_entry fs root (e_dir e) f a (extract_incs (tl a))) in *.
     exists ((e_dir e, Some f, a) :: v), ((e_dir e, f, a) :: l), (o1 ++ o), (w1 ++ w).
     cbn [validated with_files Model.C13.loop]. rewrite Ea, Ef, Hv. cbn [with_files]. rewrite Hl, D, Hloop.
     split; [reflexivity|]. split; [reflexivity|]. split; [reflexivity|]. split.
